@@ -419,6 +419,7 @@ func runC19(res *result) error {
 	kinds := []string{"valid-frames", "malformed-crc-valid", "random-bytes", "markup"}
 	runs := n(8, 60)
 	baseline := -1
+	retried := 0
 	for i := 0; i < runs+1; i++ {
 		kind := kinds[i%len(kinds)]
 		if i == 0 {
@@ -540,7 +541,7 @@ func runC19(res *result) error {
 			if slowServer {
 				time.Sleep(3000 * time.Millisecond)
 			}
-			conn.SetReadDeadline(time.Now().Add(15 * time.Second))
+			conn.SetReadDeadline(time.Now().Add(30 * time.Second))
 			if slowServer {
 				conn.SetReadDeadline(time.Now().Add(40 * time.Second))
 			}
@@ -561,6 +562,17 @@ func runC19(res *result) error {
 				break
 			}
 			time.Sleep(30 * time.Millisecond)
+		}
+		if conn == nil && retried < 3 {
+			// the proxy did not come up (most likely another process took one of its ports between our
+			// choosing them and its binding them): the same run again, with new ports
+			retried++
+			cmd.Process.Kill()
+			cmd.Wait()
+			up.Close()
+			os.RemoveAll(dir)
+			i--
+			continue
 		}
 		if conn == nil {
 			fail = "cannot connect to the proxy: " + perr.String()
@@ -611,7 +623,7 @@ func runC19(res *result) error {
 			}()
 			var fromServer []byte
 			tmpb := make([]byte, 4096)
-			conn.SetReadDeadline(time.Now().Add(8 * time.Second))
+			conn.SetReadDeadline(time.Now().Add(20 * time.Second))
 			if listening {
 				conn.SetReadDeadline(time.Now().Add(idle + 10*time.Second))
 			}
